@@ -25,8 +25,8 @@ import (
 
 type c18Prog struct {
 	Entry   c08Prog `json:"entry"`
-	WKey    int     `json:"wkey"` // writer's link key
-	RKey    int     `json:"rkey"` // other reader's link key (made different from wkey)
+	WKey    int     `json:"wkey"`    // writer's link key
+	RKey    int     `json:"rkey"`    // other reader's link key (made different from wkey)
 	Appends []int   `json:"appends"` // pointer counts of a small log built with the writer key
 }
 
